@@ -31,6 +31,8 @@ def convertEntries(entries):
 
 
 def getCollectionValue(collection, what):
+    if what is None:
+        what = "values"  # same default as the for statement
     if collection.isList():
         return collection.value
     elif collection.isSet():
